@@ -587,6 +587,25 @@ func gen(a Args, out *Out) {
 		emit("body-text", List(Int(0), List(Int(5), Str(s))))
 		emit("body-bytes", List(Int(0), bytesGov([]byte(s))))
 	}
+	// int64 -> float64 rounding (ties to even above 2^53) and float64 -> int64 truncation
+	for sh := uint(52); sh <= 62; sh++ {
+		for _, d := range []int64{-3, -2, -1, 0, 1, 2, 3} {
+			v := int64(1)<<sh + d<<(sh-52)/2 + d
+			emit("body-int-big", List(Int(0), List(Int(1), Int(iI64), Int(v))))
+			emit("body-int-big", List(Int(0), List(Int(1), Int(iI64), Int(-v))))
+		}
+	}
+	for i := 0; i < 150*scale; i++ {
+		v := int64(rng.Next()) >> uint(rng.Intn(12))
+		emit("body-int-big", List(Int(0), List(Int(1), Int(iI64), Int(v))))
+		// a double with an exponent around the integer range, random fraction
+		e := uint64(1023 - 3 + rng.Intn(70))
+		bits := uint64(rng.Intn(2))<<63 | e<<52 | rng.Next()>>12
+		if rng.Chance(1, 4) {
+			bits &^= (uint64(1) << uint(rng.Intn(52))) - 1 // integral values
+		}
+		emit("body-float-intrange", List(Int(0), List(Int(4), Uint(bits))))
+	}
 	emit("body-nil", List(Int(0), Ints(0)))
 	emit("body-bool", List(Int(0), List(Int(2), Bool(true))))
 	emit("body-bool", List(Int(0), List(Int(2), Bool(false))))
@@ -791,6 +810,27 @@ func gen(a Args, out *Out) {
 			x, n := binary.Uvarint(w)
 			t, err := strconv.ParseFloat(p.BodyToString(), 64)
 			return n == len(w) && x == bits && math.Float64bits(p.BodyToFloat()) == bits && err == nil && (t == f || f != f && t != t)
+		})
+	}
+	// float32 bodies: narrowing the float64 read back gives the pattern set (a signalling NaN
+	// comes back quiet)
+	for i := 0; i < nvol; i++ {
+		b32 := uint32(vr.Next())
+		switch i % 8 {
+		case 0:
+			b32 &= 0x807fffff // subnormals and zeros
+		case 1:
+			b32 |= 0x7f800000 // NaNs and infinities
+		}
+		catchViol("C07/go/float32-readback", "float32 body does not read back as the value set", List(Int(0), List(Int(3), Uint(uint64(b32)), Uint(widen32(b32)))), func() bool {
+			p := packet.Make()
+			p.SetBody(math.Float32frombits(b32))
+			got := math.Float32bits(float32(p.BodyToFloat()))
+			want := b32
+			if b32&0x7f800000 == 0x7f800000 && b32&0x007fffff != 0 {
+				want |= 0x00400000
+			}
+			return got == want
 		})
 	}
 	var encs []codec.Encoder
